@@ -1,7 +1,9 @@
 package main
 
 import (
+	"context"
 	"fmt"
+	"sync"
 	"sync/atomic"
 	"time"
 
@@ -525,4 +527,245 @@ func scenUncommittedConfig(e *engineA) error {
 		}
 	}
 	return e.finish()
+}
+
+// identity isolation and storage exclusivity (C20) ------------------------------
+
+type mixResolver struct {
+	mu   sync.Mutex
+	real map[uint64]string
+	bad  map[uint64]string // overrides currently in force
+}
+
+func (m *mixResolver) LookupID(id uint64, timeout time.Duration) (string, error) {
+	m.mu.Lock()
+	defer m.mu.Unlock()
+	if a, ok := m.bad[id]; ok {
+		return a, nil
+	}
+	if a, ok := m.real[id]; ok {
+		return a, nil
+	}
+	return "", fmt.Errorf("unknown node %d", id)
+}
+
+func init() { scenarios["identity"] = scenIdentity }
+
+// scenIdentity: two clusters with the same node ids share one network.
+// Addresses are rebound to nodes of the other cluster / other nodes of the
+// same cluster while connections are pooled, resolvers hand out wrong
+// addresses, a peer shakes hands under a wrong identity and keeps talking,
+// and storage directories in use are opened again.
+func scenIdentity(e *engineA) error {
+	e.prof = profiles["general"]
+	res1 := &mixResolver{real: map[uint64]string{}, bad: map[uint64]string{}}
+	res2 := &mixResolver{real: map[uint64]string{}, bad: map[uint64]string{}}
+	opt2 := e.cl.opt
+	e.cl.opt.Resolver = res1
+	opt2.Resolver = res2
+	c2 := newCluster(2, e.rc, e.pc, e.net, e.cfg.Scratch, opt2, e.cfg.Seed^0xc2)
+	for id := uint64(1); id <= 3; id++ {
+		res1.real[id] = e.cl.addrOf(id)
+		res2.real[id] = c2.addrOf(id)
+	}
+	onCrash1 := e.cl.onCrash
+	e.pc.onCrash = func(dir, image, point string, occ int) {
+		onCrash1(dir, image, point, occ)
+		c2.onCrash(dir, image, point, occ)
+	}
+	if err := e.boot(3); err != nil {
+		return err
+	}
+	if err := c2.bootstrap([]uint64{1, 2, 3}); err != nil {
+		return fmt.Errorf("cluster 2: %v", err)
+	}
+	if c2.waitLeader(200*e.hb()) == nil {
+		return fmt.Errorf("cluster 2: no leader")
+	}
+	e.cl.startInfoSampler(e.hb())
+	c2.startInfoSampler(e.hb())
+	e.startClientsOn(e.cl, 2, map[string]int{"update": 4, "read": 1})
+	e.startClientsOn(c2, 2, map[string]int{"update": 4, "read": 1})
+	cls := []*Cluster{e.cl, c2}
+	ress := []*mixResolver{res1, res2}
+	steps := e.cfg.paramInt("steps", 14)
+	for i := 0; i < steps; i++ {
+		e.sleepHB(1, 3)
+		ci := e.rng.Intn(2)
+		cl, other := cls[ci], cls[1-ci]
+		id := uint64(1 + e.rng.Intn(3))
+		n := cl.node(id)
+		switch act := e.rng.Intn(7); act {
+		case 0: // the node's address now leads to the same node id of the other cluster
+			on := other.node(id)
+			if on == nil || n == nil || !on.alive() || !n.alive() {
+				continue
+			}
+			e.rc.emit(&ev.Rec{K: "fault", Op: "rebind-to-other-cluster", Cid: cl.cid, Nid: id})
+			e.net.Rebind(n.addr, on.lis)
+			for _, m := range cl.liveNodes() {
+				e.net.BreakConns(m.label, n.label)
+			}
+			e.sleepHB(2, 5)
+			e.net.Rebind(n.addr, n.lis)
+		case 1: // ... or to another node of its own cluster
+			oid := id%3 + 1
+			on := cl.node(oid)
+			if on == nil || n == nil || !on.alive() || !n.alive() {
+				continue
+			}
+			e.rc.emit(&ev.Rec{K: "fault", Op: "rebind-to-other-node", Cid: cl.cid, Nid: id, ID: oid})
+			e.net.Rebind(n.addr, on.lis)
+			for _, m := range cl.liveNodes() {
+				e.net.BreakConns(m.label, n.label)
+			}
+			e.sleepHB(2, 5)
+			e.net.Rebind(n.addr, n.lis)
+		case 2: // the resolver hands out an address of the other cluster / another node
+			r := ress[ci]
+			wrong := other.addrOf(uint64(1 + e.rng.Intn(3)))
+			if e.rng.Intn(2) == 0 {
+				wrong = cl.addrOf(id%3 + 1)
+			}
+			e.rc.emit(&ev.Rec{K: "fault", Op: "resolver-wrong-address", Cid: cl.cid, Nid: id, Note: wrong})
+			r.mu.Lock()
+			r.bad[id] = wrong
+			r.mu.Unlock()
+			if n != nil {
+				for _, m := range cl.liveNodes() {
+					e.net.BreakConns(m.label, n.label)
+				}
+			}
+			e.sleepHB(2, 5)
+			r.mu.Lock()
+			delete(r.bad, id)
+			r.mu.Unlock()
+		case 3: // a peer of the other cluster shakes hands (all 4 combinations of wrong / right cid, nid) and keeps talking
+			if n == nil || !n.alive() {
+				continue
+			}
+			e.rc.emit(&ev.Rec{K: "fault", Op: "wire-wrong-identity", Cid: cl.cid, Nid: id})
+			for k := 0; k < 4; k++ {
+				cid, nid := cl.cid, id
+				if k&1 != 0 {
+					cid = other.cid
+				}
+				if k&2 != 0 {
+					nid = id%3 + 1
+				}
+				e.wireTalk(n, cid, nid)
+			}
+		case 4, 5: // the directory of a serving node is used again
+			if n == nil || !n.alive() {
+				continue
+			}
+			e.exclusive(cl, n)
+		case 6:
+			if n == nil || !n.alive() {
+				continue
+			}
+			e.rc.emit(&ev.Rec{K: "fault", Op: "restart", Cid: cl.cid, Nid: id})
+			if n.shutdown(30 * time.Second) {
+				e.exclusiveIdle(cl, n)
+				if _, err := cl.start(id, n.dir); err != nil {
+					e.rc.emit(&ev.Rec{K: "restart-failed", Cid: cl.cid, Nid: id, Err: err.Error()})
+				}
+			}
+		}
+	}
+	// cluster 2 winds down here; cluster 1 through the common path
+	e.net.HealAll(false)
+	e.sleepHB(4, 6)
+	e.stopLoad()
+	for _, n := range c2.liveNodes() {
+		n.dump("final")
+	}
+	c2.shutdownAll()
+	c2.stopBackground()
+	e.stopClients = make(chan struct{})
+	return e.finish()
+}
+
+// wireTalk: handshake naming (cid, nid), then requests on the same connection.
+func (e *engineA) wireTalk(n *Node, cid, nid uint64) {
+	info, ok := n.info(false)
+	if !ok {
+		return
+	}
+	src := uint64(91)
+	p, resp, err := wireDial(e.net, "wire", src, n.addr, cid, nid, 2*e.hb())
+	rec := &ev.Rec{K: "wire-handshake", Cid: n.cl.cid, Nid: n.nid, A: cid, B: nid, Res: resp.Result}
+	if err != nil {
+		rec.Err = err.Error()
+	}
+	e.rc.emit(rec)
+	if err != nil || p == nil {
+		return
+	}
+	defer p.close()
+	// a vote request with a huge term would depose everybody if it were processed
+	for _, m := range []raft.VerifMsg{
+		{Kind: "vote", Term: info.Term + 1000, Src: src, A: info.LastLogIndex + 1000, B: info.LastLogTerm + 1000},
+		{Kind: "timeoutNow", Term: info.Term, Src: src},
+	} {
+		r, err := p.call(m, nil, 2*e.hb())
+		rec := &ev.Rec{K: "wire-request", Cid: n.cl.cid, Nid: n.nid, RPC: m.Kind, A: cid, B: nid, Res: r.Result}
+		if err != nil {
+			rec.Err = err.Error()
+			e.rc.emit(rec)
+			return
+		}
+		e.rc.emit(rec)
+	}
+}
+
+// exclusive: attempts on a directory that is being served. Three steps, so
+// that a rejected attempt that damages the lock shows in the next one.
+func (e *engineA) exclusive(cl *Cluster, n *Node) {
+	e.rc.emit(&ev.Rec{K: "fault", Op: "reuse-served-directory", Cid: cl.cid, Nid: n.nid})
+	errStr := func(err error) string {
+		if err == nil {
+			return ""
+		}
+		return err.Error()
+	}
+	for round := 0; round < 2; round++ {
+		// a second instance on the same directory
+		r2, err := raft.New(cl.opt, newRecFSM(e.rc, n.dir+".ghost"), n.dir)
+		if err != nil {
+			e.rc.emitNode(n.dir, &ev.Rec{K: "exclusive", Op: "second-serve-while-serving", Err: err.Error(), Note: "New"})
+		} else {
+			lis := e.net.Listen(fmt.Sprintf("ghost%d:1", e.cl.nextOp()), n.label+"ghost")
+			done := make(chan error, 1)
+			go func() { done <- r2.Serve(lis) }()
+			select {
+			case err := <-done:
+				e.rc.emitNode(n.dir, &ev.Rec{K: "exclusive", Op: "second-serve-while-serving", Err: errStr(err)})
+			case <-time.After(10 * e.hb()):
+				e.rc.emitNode(n.dir, &ev.Rec{K: "exclusive", Op: "second-serve-while-serving", Err: "", Note: "second instance is serving"})
+				ctx, cancel := context.WithTimeout(context.Background(), 10*time.Second)
+				_ = r2.Shutdown(ctx)
+				cancel()
+			}
+		}
+		e.rc.emitNode(n.dir, &ev.Rec{K: "exclusive", Op: "setidentity-same-while-serving", Err: errStr(raft.SetIdentity(n.dir, cl.cid, n.nid))})
+		e.rc.emitNode(n.dir, &ev.Rec{K: "exclusive", Op: "setidentity-other-while-serving", Err: errStr(raft.SetIdentity(n.dir, cl.cid+7, n.nid+7))})
+	}
+}
+
+// exclusiveIdle: attempts on the directory of a node that was shut down.
+func (e *engineA) exclusiveIdle(cl *Cluster, n *Node) {
+	errStr := func(err error) string {
+		if err == nil {
+			return ""
+		}
+		return err.Error()
+	}
+	e.rc.emitNode(n.dir, &ev.Rec{K: "exclusive", Op: "setidentity-same-after-stop", Err: errStr(raft.SetIdentity(n.dir, cl.cid, n.nid))})
+	e.rc.emitNode(n.dir, &ev.Rec{K: "exclusive", Op: "setidentity-other-after-stop", Err: errStr(raft.SetIdentity(n.dir, cl.cid+7, n.nid))})
+	e.rc.emitNode(n.dir, &ev.Rec{K: "exclusive", Op: "setidentity-other-after-stop", Err: errStr(raft.SetIdentity(n.dir, cl.cid, n.nid+7))})
+	// read back through New
+	if r, err := raft.New(cl.opt, newRecFSM(e.rc, n.dir+".probe"), n.dir); err == nil {
+		e.rc.emitNode(n.dir, &ev.Rec{K: "exclusive", Op: "identity-after-attempts", Idx: r.CID(), Term: r.NID()})
+	}
 }
